@@ -284,6 +284,13 @@ def _closest_points_on_segments_2d(a0x: float, a0y: float, a1x: float, a1y: floa
     if den > 0.0:
         s = (B * E - C * D) / den
         t = (A * E - B * D) / den
+    elif C > 0.0:
+        # Parallel segments (or A is a point): keep s = 0 and project a0 onto B;
+        # the clamping below then moves s if the projection falls outside B.
+        t = E / C
+    elif A > 0.0:
+        # B is a point: project it onto A (clamped below).
+        s = -D / A
 
     # clamp and recompute as needed
     if s < 0.0:
